@@ -151,7 +151,10 @@ def toDatetime : PyVal → PyVal
   | date d => datetime (d * 86400000000)
   | v => v
 
-/-- Python `a <= b`; `none` = the comparison raises `TypeError`.  Orderings
+/-- Python `a <= b`; `none` = the comparison raises `TypeError`.  All five kinds of
+number are mutually comparable (checked on this CPython: `Decimal('0.5') <= Fraction(1)` and
+`Fraction(1, 2) <= Decimal(1)` are `True`; only a float NaN against a `Decimal` raises, and
+that pair is outside the value domain).  Orderings
 between strings / containers are not modelled (they are never reached: every
 validator checks the type of the value before it compares). -/
 def le? : PyVal → PyVal → Option Bool
